@@ -1,9 +1,9 @@
-\* C10 thorough: 4 documents, 3 values, 6 page settings
+\* C10 thorough: 4 documents, 3 values, 3 page settings
 SPECIFICATION Spec
 CONSTANTS
   NDocs = 4
   Vals = {1, 2, 3}
   Sizes = {0, 1, 2, 3, 4, 5}
-  Pages <- PagesFull
+  Pages <- PagesThree
 INVARIANTS TypeOK Refines TallyBeforeStore FacetsAreTheMeaning CountsAreDocCounts Ordered Balanced Accounted PageOK
 CHECK_DEADLOCK FALSE
